@@ -3,8 +3,13 @@ C17 — A failed symbol import leaves the table unchanged.
 The full statement is FALSE of the code as modelled (witness below: an extension-number
 collision is detected after the file's symbols were committed). What holds is the partial
 theorem: a failure detected by the name-collision check leaves the table exactly as it was.
+`Props/C17X.lean` characterises the other kind of failure for every table and file: once the name
+check passes the file is committed and recorded, whatever the extension pass reports, and a second
+import is silent (`ext_pass_failure_commits`, `reimport_after_ext_failure_is_silent`,
+`recorded_iff_check_passed`).
 -/
 import PCV.Model.Symbols
+import PCV.Props.C17X
 namespace PCV.Props.C17
 open PCV.Symbols
 
@@ -74,8 +79,28 @@ example :
     (checkFile (getNode wT ["a"]) wF4 { mode := .strict }).2 = true := by
   decide +kernel
 
+-- non-vacuity of the C17X theorems: g3 passes the name check and fails in the extension pass
+-- (a.M#100 is taken by g2); the hypotheses of `ext_pass_failure_commits` hold and Import errs
+def wG2 : FileDef := ⟨5, "g2.proto", ["a"], [], false, [(["a", "x"], .ext ["a", "M"] 100)]⟩
+def wG3 : FileDef := ⟨6, "g3.proto", ["a"], [], false, [(["a", "P"], .msg), (["a", "y"], .ext ["a", "M"] 100)]⟩
+def wT2 : Table :=
+  (importFile [] 4 (importFile [] 4 [] { mode := .strict } wF1).1 { mode := .strict } wG2).1
+example :
+    wG3.deps = [] ∧
+    importPackages wT2 { mode := .strict } wG3.path wG3.pkg = (wT2, { mode := .strict }, some ["a"], false) ∧
+    (getNode wT2 ["a"]).files.contains wG3.id = false ∧
+    (checkFile (getNode wT2 ["a"]) wG3 { mode := .strict }).2 = false ∧
+    (checkFile (getNode wT2 ["a"]) wG3 { mode := .strict }).1.failed = false ∧
+    (importFile [] 4 wT2 { mode := .strict } wG3).2.2 = .err ∧
+    lookup (importFile [] 4 wT2 { mode := .strict } wG3).1 ["a", "P"] = some "g3.proto" ∧
+    (importFile [] 4 (importFile [] 4 wT2 { mode := .strict } wG3).1 { mode := .strict } wG3).2.2 = .ok := by
+  decide +kernel
+
 end PCV.Props.C17
 
 #print axioms PCV.Props.C17.import_fail_unchanged_refuted
 #print axioms PCV.Props.C17.import_symCollision_unchanged_partial
 #print axioms PCV.Props.C17.reimport_noop
+#print axioms PCV.Props.C17X.ext_pass_failure_commits
+#print axioms PCV.Props.C17X.reimport_after_ext_failure_is_silent
+#print axioms PCV.Props.C17X.recorded_iff_check_passed
